@@ -1,0 +1,21 @@
+//go:build verif
+
+package ints
+
+// Verification hooks (build tag "verif" only): expose the unexported pieces of Sort so that the
+// verification harness can drive them directly. Add-only; nothing here changes the package's behaviour.
+
+//VerifInsertionSort calls insertionSort(data, a, b).
+func VerifInsertionSort(data []int, a, b int) { insertionSort(data, a, b) }
+
+//VerifHeapSort calls heapSort(data, a, b).
+func VerifHeapSort(data []int, a, b int) { heapSort(data, a, b) }
+
+//VerifDoPivot calls doPivot(data, lo, hi).
+func VerifDoPivot(data []int, lo, hi int) (midlo, midhi int) { return doPivot(data, lo, hi) }
+
+//VerifQuickSort calls quickSort(data, a, b, maxDepth).
+func VerifQuickSort(data []int, a, b, maxDepth int) { quickSort(data, a, b, maxDepth) }
+
+//VerifMaxDepth calls maxDepth(n).
+func VerifMaxDepth(n int) int { return maxDepth(n) }
